@@ -779,6 +779,38 @@ func TestC01Stress(t *testing.T) {
 		if maxHolders > maxLimit {
 			rep.Violate(stratNames[kind]+":stress-over-admission", fmt.Sprintf("%d simultaneous holders with limits never above %d", maxHolders, maxLimit), map[string]interface{}{"kind": kind, "max_holders": maxHolders})
 		}
+		// second phase: a limit well above the number of goroutines - nobody may ever be refused
+		st.SetLimit(64)
+		var refused2, tries2 int64
+		stop2 := make(chan struct{})
+		var wg2 sync.WaitGroup
+		for g := 0; g < 16; g++ {
+			wg2.Add(1)
+			go func() {
+				defer wg2.Done()
+				for {
+					select {
+					case <-stop2:
+						return
+					default:
+					}
+					tok, ok := st.TryAcquire(context.Background())
+					atomic.AddInt64(&tries2, 1)
+					if ok {
+						tok.Release()
+					} else {
+						atomic.AddInt64(&refused2, 1)
+					}
+				}
+			}()
+		}
+		time.Sleep(dur / 8)
+		close(stop2)
+		wg2.Wait()
+		rep.Evaluations += int(tries2)
+		if refused2 > 0 {
+			rep.Violate(stratNames[kind]+":stress-refused-with-room", fmt.Sprintf("%d of %d TryAcquire calls were refused with at most 16 tokens out and a limit of 64", refused2, tries2), map[string]interface{}{"kind": kind})
+		}
 		// quiescent: all released; the full limit must be admitted again
 		st.SetLimit(3)
 		n := 0
